@@ -218,6 +218,9 @@ var extOffers = [][]string{
 	{`foo; a="\\", permessage-deflate`},
 	{`foo; a="x\"y", bar`},
 	{`foo; a="permessage-deflate\"", bar; b="c"`},
+	{"x-foo; mode=a~b, permessage-deflate"},
+	{"x-foo; m`=!#$%&'*+-.^_|~, permessage-deflate; client_max_window_bits"},
+	{`x-foo; q="1\5", permessage-deflate`},
 	// a malformed element whose quoted-string holds commas around the name
 	{`x-foo note="1, permessage-deflate, 2"`},
 	{`x-foo; a b="1, permessage-deflate, 2"`},
